@@ -8,3 +8,5 @@ pub(crate) mod spec_sgr;
 pub(crate) mod astyle;
 pub(crate) mod amodel;
 pub(crate) mod wincon_stream;
+pub(crate) mod fmt_stub;
+pub(crate) mod stream_methods;
